@@ -53,7 +53,6 @@ def run(run, replay=None):
         res = rdriver.read_bytes(data)
         dom = rdriver.dom_load(data)
         c = rdriver.case(n, 'contract', data, cat, result=res, ship_recs=False, dom=dom)
-        c['cmap'] = []
         cases.append(c)
         run.count(data, nontrivial=res[1] != 'done' or dom['end'] != 'ok')
         if n % (total // 5) == 1:
@@ -73,7 +72,7 @@ def run(run, replay=None):
         else:
             z['dom'] = {'end': z['dom']['end'], 'closed': False}
         can.append(z)
-    run.judge('Trace_Reader', cases + can, None, canary_ids=[c['id'] for c in can], describe=describe)
+    run.judge('Trace_Reader', cases + can, cat.tables(), canary_ids=[c['id'] for c in can], describe=describe)
     ends = {}
     for c in cases:
         ends[c['end']] = ends.get(c['end'], 0) + 1
